@@ -2,9 +2,10 @@
 Theorems: coq/Props_C12.v - the lock discipline R1-R3 of coq/Sync.v (no blocking wait under a store-wide or server-wide
 mutex, mutexes acquired in rank order, no unknown mutex) evaluated on the table of synchronisation statements that
 harness/gofacts regenerates from olareg.go, referrer.go, internal/store and internal/cache on every run; ranked
-acquisition excludes wait-for cycles; the handlers themselves are finite sequences of atomic store actions.
-Search for a failing schedule (the proof obligation may break on a harmless rewrite, and the discipline is
-intra-procedural): stall scenarios on the real server under a watchdog - a request holding a repository while a
+acquisition excludes wait-for cycles; the handlers themselves are finite sequences of atomic store actions.  The order is also
+checked across calls (coq/LockOrder.v on Gen_Locks.v: acquisitions closed over the call graph that the Go type checker
+resolves, interface calls to every implementing method, `locked` parameters followed, cache instances told apart).
+Search for a failing schedule (the proof obligations may break on a harmless rewrite): stall scenarios on the real server under a watchdog - a request holding a repository while a
 collection tick arrives and further requests queue (other repositories must stay responsive, a cancelled waiter must
 return), Close racing the collection ticker at microsecond periods, uploads racing session expiry and eviction,
 concurrent pushes / deletes / reads against a running ticker followed by Close.  A stall is reported with the stacks of
@@ -264,7 +265,7 @@ def run(ctx):
             alltext = "\n".join(t for _, t in hangs)
             blocks = re.split(r"\n\s*\n", alltext)
             side_a = any(re.search(r"prune(Count|Age)", b) and "RepoGet.func" in b for b in blocks)          # prune holds cache.mu, waits for the session
-            side_b = any(re.search(r"dirRepoUpload\)\.(Close|Cancel)", b) and "Cache[...]).Delete" in b for b in blocks)   # session held, waits for cache.mu
+            side_b = any(re.search(r"dirRepoUpload\)\.(Close|Cancel|Write)", b) and re.search(r"Cache\[\.\.\.\]\)\.(Delete|Get)", b) for b in blocks)   # session held, waits for cache.mu
             if side_a and side_b:
                 # eviction / expiry of a session (cache.mu, then the session's mutex through PrunePreFn) against the completion or
                 # cancellation of that session (session mutex, then cache.mu): finding C12-F45
@@ -277,6 +278,6 @@ def run(ctx):
     ctx.coverage.update(dict(evaluations=len(cases), distinct_nontrivial=len(cases),
                              rule="stall scenarios on the real server (ServeHTTP in-process, real ticker / cache timers / eviction goroutines) under a 6 s watchdog per step; non-trivial = every case (each has concurrent or background activity)",
                              scenarios=per, traces_validated_against_impl=len(cases) - nstall, correspondence_mismatches=0 if ok_props else 1, stalls=nstall, exhaustive=False))
-    ctx.assumptions = ["the lock discipline is checked per function on source-order statements (calls and callbacks are not expanded; the two waits that are allowed under a global mutex are listed in Sync.allowed_waits with the reason)",
+    ctx.assumptions = ["blocking waits (R1) are checked per function on source-order statements; the lock order (R2) is also checked across calls on the call graph resolved by go/types (calls through function values are not resolved: the callbacks handed to a cache are simulated under that cache's mutex; the two store implementations are assumed not to share objects); the waits allowed under a global mutex are listed in Sync.allowed_waits, the one known inversion in LockOrder.known_sites",
                        "channel waits other than the per-repository collection token (stop channels, ticker, context) are cancellation signals and not counted as blocking",
                        "the stall scenarios sample schedules; a schedule that hangs is a failing input, the absence of one in a run is not a proof - the theorem is"]
